@@ -27,7 +27,7 @@ func (p *c06) Setup(env *fw.Env) error {
 	p.N = len(p.pool) + env.Pick(1200, 60000)
 	p.RuleS = fmt.Sprintf("every repository XGo/class file and harvested test snippet (%d), then generated packages: typed Go programs saved as .xgo (C01 generator), the sugar programs of C03/C04/C05 (error wrapping, range expressions, interpolation), syntactic XGo/class files, and near-miss variants of all of them (1-3 token mutations: dropped/duplicated/swapped tokens, replaced identifiers and literals, changed operators), single- and two-file packages. Each package is compiled in-process (cl.NewPackage + WriteTo). Oracle, applied whenever the compiler reports no error: the written source parses with go/parser, go/types accepts it (imports resolved from the toolchain's export data), and — for a deterministic sample of the successful outputs — `go build` accepts it (one batch build, driver side). Sites are the Go checker's message with names and positions removed.", len(p.pool))
 	p.Assume = []string{"the output is checked as the compiler writes it (one file, package as named by the source)", "outputs importing packages the sandbox cannot resolve are skipped (counted)"}
-	p.Floor = map[string]int{"#evaluations": p.N * 9 / 10, "#nontrivial": p.N / 12, "compiler-reported-success": p.N / 12, "compiler-reported-errors": p.N / 4, "kind:near-miss": p.N / 6, "output-type-checked": p.N / 12, "near-miss-accepted-by-compiler": 20, "outputs-built-by-go": 20}
+	p.Floor = map[string]int{"#evaluations": p.N * 9 / 10, "#nontrivial": p.N / 12, "compiler-reported-success": p.N / 12, "compiler-reported-errors": p.N / 4, "kind:near-miss": p.N / 6, "output-type-checked": p.N / 12, "near-miss-accepted-by-compiler": p.N / 800, "outputs-built-by-go": 20}
 	return nil
 }
 
